@@ -159,7 +159,18 @@ func genC10Seq(r *vk.RNG, binary bool) []c10op {
 			case 1:
 				v = append([]byte{0x00, 0xff, byte(nval), '\n'}, v...)
 			}
-			ops = append(ops, c10op{Op: "put", Key: vk.Pick(r, keys), Val: v, Ctx: ctxl})
+			key := vk.Pick(r, keys)
+			if r.Chance(1, 3) {
+				// the same bytes as the last write to this key, whatever language or session that went to (a translation
+				// that reads like the default text, a value put back)
+				for k := len(ops) - 1; k >= 0; k-- {
+					if ops[k].Op == "put" && ops[k].Key == key && len(ops[k].Val) > 0 {
+						v = append([]byte{}, ops[k].Val...)
+						break
+					}
+				}
+			}
+			ops = append(ops, c10op{Op: "put", Key: key, Val: v, Ctx: ctxl})
 		case x < 58:
 			ops = append(ops, c10op{Op: "get", Key: vk.Pick(r, keys), Ctx: ctxl})
 		case x < 68:
@@ -637,8 +648,69 @@ func C10() *vk.Check {
 		Assumptions: []string{"trusted base: the reference map and, for Postgres, pgfake", "listings are compared for the types without language scope; Dump on mem/Postgres is outside the property"}}
 }
 
+// c10Translations: enumerated short sequences on one key of every language-scoped type (unlocked first): writes and
+// reads of the default entry and of one or two translations in every order, with values that are equal to or
+// different from what the other language holds, the language given by SetLanguage or by the context.
+func c10Translations(c *vk.Ctx) {
+	type step struct {
+		lang string // "" = default entry
+		put  bool
+		val  string
+	}
+	vals := []string{"same", "same", "other", ""}
+	idx := 0
+	for _, typ := range []uint8{db.DATATYPE_MENU, db.DATATYPE_TEMPLATE, db.DATATYPE_STATICLOAD} {
+		for _, viaCtx := range []bool{false, true} {
+			// all sequences of four writes (language in {"", nor, swa} x value) each followed by reads in all three languages
+			for code := 0; code < 3*4*3*4*3*4; code++ {
+				idx++
+				if !c.Mine(idx) {
+					continue
+				}
+				key := fmt.Sprintf("translations/%d/%v/%d", typ, viaCtx, code)
+				if !c.Want(key) {
+					continue
+				}
+				x := code
+				var steps []step
+				for k := 0; k < 3; k++ {
+					l := []string{"", "nor", "swa"}[x%3]
+					x /= 3
+					v := vals[x%4]
+					x /= 4
+					if k == 2 && v == "same" {
+						v = "changed"
+					}
+					steps = append(steps, step{lang: l, put: true, val: v})
+				}
+				ops := []c10op{{Op: "lock", Typ: typ, Lock: false}, {Op: "prefix", Typ: typ}}
+				setLang := func(l string) string {
+					if viaCtx {
+						return l
+					}
+					ops = append(ops, c10op{Op: "language", Lang: l})
+					return ""
+				}
+				for _, st := range steps {
+					cl := setLang(st.lang)
+					ops = append(ops, c10op{Op: "put", Key: "greeting", Val: []byte(st.val), Ctx: cl})
+					for _, rl := range []string{"nor", "", "swa"} {
+						cl := setLang(rl)
+						ops = append(ops, c10op{Op: "get", Key: "greeting", Ctx: cl})
+					}
+				}
+				c.Begin(key)
+				runC10Seq(c, ops, key, []string{"mem", "fs", "fsbin", "pg"})
+				c.Eval(vk.Hash64(key), true)
+				c.Count("translation_sequences", 1)
+			}
+		}
+	}
+}
+
 func runC10(c *vk.Ctx) {
 	c10IOFault(c)
+	c10Translations(c)
 	n := c.N(3000, 200000)
 	for i := 0; i < n; i++ {
 		if !c.Mine(i) {
